@@ -40,7 +40,7 @@ def parseDeco (tok : String) : Option Deco :=
     match tok.splitOn "=" with
     | ["set", x] => (parseName x).map .setter
     | ["del", x] => (parseName x).map .deleter
-    | ["o", x] => (parseName x).map .opaque
+    | ["o", x] => (parseName x).map .ident
     | _ => none
 
 def parseDecos (tok : String) : Option (List Deco) :=
